@@ -231,6 +231,17 @@ func genConfig(r *rng) cfgCase {
 		b.WriteString("# trailing comment\n")
 	}
 	c.text = b.String()
+	if r.intn(8) == 0 {
+		// a long file: 70 KiB of comments in front of everything, or between the tables
+		pad := strings.Repeat("# "+strings.Repeat("lorem ipsum ", 8)+"\n", 720)
+		if r.intn(2) == 0 || !strings.Contains(c.text, "\n[") {
+			c.text = pad + c.text
+		} else {
+			i := strings.Index(c.text, "\n[") + 1
+			c.text = c.text[:i] + pad + c.text[i:]
+		}
+		c.kind += "+long-file"
+	}
 	if !haveFeeds {
 		feeds = map[string][]string{}
 	}
